@@ -430,6 +430,10 @@ class ModuleEnv(object):
                             return getattr(v, fld)
                     raise
             known = {"os.path.sep": "/", "os.extsep": ".", "os.path.extsep": "."}
+            if r.startswith("string.") and r[7:] in ("ascii_letters", "ascii_lowercase", "ascii_uppercase", "digits", "punctuation", "whitespace", "hexdigits"):
+                import string as _string
+
+                return getattr(_string, r[7:])
             if r in known:
                 return known[r]
             raise Unknown(r)
